@@ -7,5 +7,6 @@ func genExtra(repo string) map[string]string {
 		"Gen_des_tables.v": genDesTables(),
 		"Gen_layouts.v":    genLayouts(),
 		"Gen_randsites.v":  genRandSites(repo),
+		"Gen_check_ir.v":   genCheckIR(repo),
 	}
 }
